@@ -485,3 +485,57 @@ Qed.
 Definition refute_progs (i : tid) : list ev := match i with O => er_pinned_miss | _ => er_pinned_miss end.
 Lemma pinned_event_race : race "cache" (run refute_progs [1; 1; 1; 1; 0; 0]).
 Proof. exists 1, 0, Rd, Wr. split; [discriminate|]. repeat split. Qed.
+
+(* ------------------------------------------------------------------------------------------ *)
+(* 6. what the regenerated table's criterion gives                                              *)
+(* ------------------------------------------------------------------------------------------ *)
+
+Lemma read_only_app g p q : read_only g p = true -> read_only g q = true -> read_only g (p ++ q)%list = true.
+Proof.
+  unfold read_only. intros Hp Hq. apply negb_true_iff in Hp, Hq. apply negb_true_iff.
+  rewrite existsb_app, Hp, Hq. reflexivity.
+Qed.
+
+Lemma read_only_concat g ps :
+  Forall (fun p => read_only g p = true) ps -> read_only g (List.concat ps) = true.
+Proof. induction 1 as [|p ps Hp _ IH]; [reflexivity|]. cbn [List.concat]. now apply read_only_app. Qed.
+
+(* a path of the table that belongs to a function running while queries run *)
+Definition runtime_path (t : site_table) (p : list ev) : Prop :=
+  exists f ps, In (f, ps) t /\ init_phase f = false /\ ctor_phase f = false /\ In p ps.
+
+Lemma runtime_path_ok t p :
+  table_ok t = true -> runtime_path t p ->
+  disciplined "cache" "mut" p = true /\ disciplined "vars" "varsMut" p = true /\
+  read_only "functions" p = true /\ read_only "immediateFunctions" p = true /\
+  read_only "topLevelFunctions" p = true.
+Proof.
+  intros Ht (f & ps & Hin & Hi & Hc & Hp).
+  unfold table_ok in Ht. rewrite forallb_forall in Ht. specialize (Ht _ Hin).
+  unfold row_ok in Ht. cbn [fst snd] in Ht. rewrite forallb_forall in Ht. specialize (Ht _ Hp).
+  unfold path_ok in Ht. rewrite Hi, Hc in Ht. cbn [orb guarded_pairs registries forallb fst snd] in Ht.
+  repeat match goal with H : _ && _ = true |- _ => apply andb_prop in H as [? ?] end.
+  repeat split; assumption.
+Qed.
+
+Theorem sites_sound (t : site_table) :
+  table_ok t = true ->
+  forall calls : tid -> list (list ev),
+    (forall i, Forall (runtime_path t) (calls i)) ->
+    forall sched, let s := run (fun i => List.concat (calls i)) sched in
+      ~ race "cache" s /\ ~ race "vars" s /\
+      ~ race "functions" s /\ ~ race "immediateFunctions" s /\ ~ race "topLevelFunctions" s.
+Proof.
+  intros Ht calls Hc sched s.
+  assert (Hall : forall i, Forall (fun p =>
+            disciplined "cache" "mut" p = true /\ disciplined "vars" "varsMut" p = true /\
+            read_only "functions" p = true /\ read_only "immediateFunctions" p = true /\
+            read_only "topLevelFunctions" p = true) (calls i)).
+  { intros i. eapply Forall_impl; [|apply Hc]. intros p. apply runtime_path_ok. exact Ht. }
+  repeat split.
+  - apply (lockset_calls_race_free "cache" "mut"). intros i. eapply Forall_impl; [|apply Hall]. cbn. tauto.
+  - apply (lockset_calls_race_free "vars" "varsMut"). intros i. eapply Forall_impl; [|apply Hall]. cbn. tauto.
+  - apply read_only_race_free. intros i. apply read_only_concat. eapply Forall_impl; [|apply Hall]. cbn. tauto.
+  - apply read_only_race_free. intros i. apply read_only_concat. eapply Forall_impl; [|apply Hall]. cbn. tauto.
+  - apply read_only_race_free. intros i. apply read_only_concat. eapply Forall_impl; [|apply Hall]. cbn. tauto.
+Qed.
